@@ -206,8 +206,14 @@ def run(ctx):
     r4.check(not other_reads, 'no-other-read-in-smtp_data', sd.unit + ':smtp_data', 'smtp_data reads input itself: %s' % other_reads)
     # commands() reads byte-wise from its argument
     cmds = db.fn('commands.c', 'commands')
-    gets = cmds.calls(('substdio_get', 'substdio_bget'))
-    r4.check(bool(gets) and all(g.args[0].path() == 'P:ss' or (g.args[0].path() or '').startswith('P:') for g in gets) and all(g.args[2].const == 1 for g in gets),
-             'commands-reads-1-byte-from-its-argument', 'commands.c:commands', 'commands() must read single bytes from the stream it is given')
+    from qv.lib import deep_calls
+    gets = deep_calls(prog, cmds, ('substdio_get', 'substdio_bget'))
+    okc = bool(gets)
+    for f, g in gets:
+        # the stream argument is the function's own parameter (commands' ss, or the helper's parameter it was handed)
+        okc = okc and (g.args[0].path() or '').startswith('P:') and g.args[2].const == 1
+        if f is not cmds:
+            okc = okc and any((a.path() or '').startswith('P:') for c in cmds.calls(f.name) for a in c.args)
+    r4.check(okc, 'commands-reads-1-byte-from-its-argument', 'commands.c:commands', 'commands() must read single bytes from the stream it is given')
     rep.assume('substdio_get(&ssin,&ch,1) yields the connection\'s bytes in order regardless of how reads were chunked',
                'saferead terminates the process on EOF/error/timeout (checked under C07)')
